@@ -276,12 +276,25 @@ pub fn build<Data: GarnishData>(parse_root: usize, parse_tree: Vec<ParseNode>, d
             _ => vec![(Instruction::EndExpression, None)],
         };
 
+        // a jump entry of this build that names the current end of the stream (the join after an else-chain
+        // that ends in `;;`, the entry of a body that emitted nothing) needs an instruction of its own there
+        let stream_end = data.get_instruction_len();
+        let mut end_is_jump_target = false;
+        let mut entry = tree_root_jump.clone();
+        while entry < data.get_jump_table_len() {
+            if data.get_from_jump_table(entry.clone()) == Some(stream_end.clone()) {
+                end_is_jump_target = true;
+                break;
+            }
+            entry += Data::Size::one();
+        }
+
         for end_instruction in end_instructions {
             match last_instruction.clone().and_then(|i| data.get_instruction(i)) {
                 // only a repeated EndExpression is redundant: the last instruction in the table is not
                 // always the last one executed (a conditional arm joins after it), so e.g. the Tis that
                 // makes `&&` / `||` boolean must not be dropped because the operand's code ends in a Tis
-                Some(instruction) if instruction == end_instruction && end_instruction.0 == Instruction::EndExpression => {}
+                Some(instruction) if instruction == end_instruction && end_instruction.0 == Instruction::EndExpression && !end_is_jump_target => {}
                 _ => {
                     data.push_instruction(end_instruction.0, end_instruction.1)?;
                     instruction_metadata.push(InstructionMetadata::new(None));
